@@ -274,6 +274,7 @@ class Lib:
         self.vp_round_consts(C.byref(rc4))
         self.ROUND = {'nearest': rc4[0], 'down': rc4[1], 'up': rc4[2], 'zero': rc4[3]}
         self.rounding = None       # when set, each call runs under this rounding mode
+        self._depth = 0
         if numeric_locale is not None:
             if self.vp_set_numeric_locale(numeric_locale) != 0:
                 raise HarnessError('numeric locale %r is not available' % numeric_locale)
@@ -308,10 +309,20 @@ class Lib:
             return fn(*args)
         mode = self.rounding
         if mode is not None:
-            self.vp_fesetround(mode)
-            r = fn(*args)
+            # calls made from inside a callback of an outer call run under the outer call's mode and leave it in place
+            outer = self._depth == 0
+            if outer:
+                self.vp_fesetround(mode)
+            self._depth += 1
+            try:
+                r = fn(*args)
+            finally:
+                self._depth -= 1
             got = self.vp_fegetround()
-            self.vp_fesetround(self.ROUND['nearest'])
+            if outer:
+                self.vp_fesetround(self.ROUND['nearest'])
+            elif got != mode:
+                self.vp_fesetround(mode)
             if got != mode:
                 self.events.append(('gstate', name, 'fenv:%d->%d' % (mode, got)))
         else:
